@@ -504,7 +504,7 @@ def main():
                 if not h or h in tried: continue
                 tried.add(h)
                 try:
-                    sr = dict(replay_search.search(h, timeout=int(os.environ.get('VERIF_REPLAY_TIMEOUT', '400'))), harness=h)
+                    sr = replay_search.search_any(l if replay_search.harness_for(l) else '%s@%s' % (l, x.get('fn') or ''), timeout=int(os.environ.get('VERIF_REPLAY_TIMEOUT', '400')))
                 except Exception as e:
                     sr = {'status': 'search-error: %s' % e, 'harness': h}
                 search_notes.append('bounded search %s (%s): %s' % (h, sr.get('bound', '?'), sr.get('status')))
@@ -533,7 +533,7 @@ def main():
             h = replay_search.harness_for(f['obligation'])
             if h:
                 try:
-                    searched[f['obligation']] = dict(replay_search.search(h, timeout=int(os.environ.get('VERIF_REPLAY_TIMEOUT', '400'))), harness=h)
+                    searched[f['obligation']] = replay_search.search_any(f['obligation'], timeout=int(os.environ.get('VERIF_REPLAY_TIMEOUT', '400')))
                 except Exception as e:
                     searched[f['obligation']] = {'status': 'search-error: %s' % e, 'harness': h}
                 break
